@@ -6,7 +6,8 @@ MetaIsTheDatas, DiagnosticIsMember, MAPIsBest, action properties RefusedWriteKee
 sets), SessionTrace (total monitor carrying post / file state from event to event).
 binding: spec -> code: TLC simulates SessionMC and prints operation scripts; each script is executed on the real library
 (TheJoker.rejection_sample / iterative_rejection_sample on the in-memory, object-cache and file paths, JokerSamples slicing /
-masking / copy / wrap_K / pickle / write / append / read, MAP_sample, median_period, marginal_ln_likelihood of the held table).
+masking / copy / wrap_K / pickle / write / append / read, MAP_sample, median_period, marginal_ln_likelihood of the held table,
+get_orbit of every held row against the curve its own columns describe).
 code -> spec: after every call the held table, its log-probability columns, its metadata and the samples file (read back) are
 projected to library-row identities and the SessionTrace monitor validates the whole history."""
 import os
@@ -40,6 +41,27 @@ def _tags(vals, ref, tol):
     for v in np.atleast_1d(np.asarray(vals, dtype=float)):
         k = int(np.argmin(np.abs(ref - v)))
         out.append(k + 1 if abs(ref[k] - v) <= tol * max(1.0, abs(v)) else 0)
+    return out
+
+
+def _orbit_tags(tbl, data, prior, ids):
+    """row k's tag is its library identity when get_orbit(k) gives the curve the row's OWN columns describe (reconstructed with the
+    float transcription of Gauss.tla, not with twobody), 0 otherwise"""
+    import astropy.units as u
+    from astropy.time import Time
+    from .. import gauss_oracle as go
+    tt = np.array([0.0, 0.7, 3.1, 9.9, 23.3, 51.7])
+    times = Time(data.t_ref.tcb.mjd + tt, format="mjd", scale="tcb")
+    out = []
+    for k in range(len(tbl)):
+        c = {"t": list(tt), "lab": [0] * len(tt), "P": float(tbl["P"][k].to_value(u.day)), "e": float(tbl["e"][k]),
+             "omega": float(tbl["omega"][k].to_value(u.rad)), "M0": float(tbl["M0"][k].to_value(u.rad)), "poly": prior.poly_trend, "noff": 0}
+        x = [float(tbl["K"][k].to_value(u.km / u.s)), float(tbl["v0"][k].to_value(u.km / u.s))]
+        for i in range(1, prior.poly_trend):
+            x.append(float(tbl["v%d" % i][k].to_value(u.km / u.s / u.day ** i)))
+        want = go.curve(c, x)
+        got = tbl.get_orbit(k).radial_velocity(times).to_value(u.km / u.s)
+        out.append(ids[k] if np.allclose(want, got, rtol=0, atol=1e-8 * max(1.0, float(np.max(np.abs(want))))) else 0)
     return out
 
 
@@ -111,7 +133,7 @@ def execute(case):
             continue
         if name == "map" and (not held or n == 0 or not haslp):
             continue
-        if name in ("median", "marginal") and (not held or n == 0):
+        if name in ("median", "marginal", "orbits") and (not held or n == 0):
             continue
         e = {"op": name, "a1": 0, "a2": 0, "a3": 0, "a4": False, "raised": False, "ids": [], "lltag": [], "lptag": [], "haslp": False,
              "meta": "none", "ret": 0, "vals": []}
@@ -162,6 +184,8 @@ def execute(case):
                 e["ret"] = (_ids_of(row, lib) or [0])[0]
             elif name == "marginal":
                 e["vals"] = _tags(joker.marginal_ln_likelihood(data, post, in_memory=(k % 2 == 0)), ref, 1e-9)
+            elif name == "orbits":
+                e["vals"] = _orbit_tags(post, data, prior, _ids_of(post, lib))
         except Exception as ex:
             e["raised"] = True
             e["exc"] = "%s: %s" % (type(ex).__name__, str(ex)[:160])
@@ -209,7 +233,7 @@ def run(ctx, selftest=False):
     ctx.notes["calls_executed_by_operation"] = hist
     ctx.notes["refused_writes"] = sum(1 for t in traces for e in t["events"] if e["op"] == "write" and e["raised"])
     ctx.sample({k: v for k, v in traces[0].items()}); ctx.sample(traces[-1])
-    missing = [o for o in ("rej", "iter", "write", "read", "map", "median", "marginal") + TABLE_OPS if hist.get(o, 0) == 0]
+    missing = [o for o in ("rej", "iter", "write", "read", "map", "median", "marginal", "orbits") + TABLE_OPS if hist.get(o, 0) == 0]
     if missing:
         raise core.MachineryError("operations never executed: %s" % missing)
     verdicts = ctx.validate("SessionTrace", traces)
